@@ -2,8 +2,11 @@
 (* Bounded instances of LogThread.tla (mode M of C25): ALL interleavings of  *)
 (* the senders' three-step sends, the collector and the owner (collect or    *)
 (* drop, at any moment - in particular racing with sends).                   *)
-(*   MC_LogThread_2x3.cfg   2 senders x 3 messages over 2 addresses          *)
-(*   MC_LogThread_3x2.cfg   3 senders x 2 messages over 2 addresses          *)
+(*   MC_LogThread_2x3.cfg   2 senders x 3 messages over 2 addresses (safety) *)
+(*   MC_LogThread_3x2.cfg   3 senders x 2 messages over 2 addresses (safety) *)
+(*   MC_LogThread_live.cfg / _live2x3.cfg   liveness on 2 x 2 / 2 x 3        *)
+(* (safety and liveness are separate runs: with fairness in the              *)
+(* specification TLC keeps its liveness graph, which is several times slower)*)
 (* Checked: the three clauses of C25 (Delivered, GeneralOrder, LastWins),    *)
 (* FoldRefinement, the refinement LogThread => LogThreadAbs (the machine     *)
 (* trace validation uses), agreement of the two formulations of the result   *)
@@ -28,18 +31,19 @@ Script3 == <<
   << M(3, "alog", 3, <<2>>),  M(4, "cwe", 4, <<2, 1>>) >>,
   << M(5, "alog", 5, <<2>>),  M(6, "log", 6, <<>>) >> >>
 
-AllMsgs == UNION {{Script[s][k] : k \in 1..Len(Script[s])} : s \in Senders}
+\* small instance for the liveness properties (quick tier): 2 x 2
+ScriptL == <<
+  << M(1, "cwe", 1, <<1>>),    M(2, "log", 2, <<>>) >>,
+  << M(4, "cwe", 4, <<1, 2>>), M(5, "alog", 5, <<1>>) >> >>
 
-\* State-space reduction (sound): what sits BEHIND Terminate in the channel is never read, so
-\* states that differ only there have the same future and satisfy the same invariants.
-UpToTerm(ch) == SubSeq(ch, 1, IF HasTerm(ch) THEN FirstTerm(ch) ELSE Len(ch))
-View == <<spc, cur, nsent, UpToTerm(chan), rd, col, cpc, ret, opc, result, completed, done0>>
+AllMsgs == UNION {{Script[s][k] : k \in 1..Len(Script[s])} : s \in Senders}
 
 -----------------------------------------------------------------------------
 \* refinement: every step of the concurrent machine is a step of LogThreadAbs or stutters
 A == INSTANCE LogThreadAbs WITH fold <- Fold(Prefix(chan)), termd <- HasTerm(chan)
 
 AbsStep ==
+  \/ UNCHANGED <<spc, cur, chan, opc, result>>      \* collector steps: invisible (cheap test first)
   \/ \E s \in Senders : A!SendStart(s, cur'[s]) \/ A!Enqueue(s) \/ A!SendEnd(s)
   \/ A!CollectStart \/ A!DropStart \/ A!SendTerminate \/ A!CollectEndExact \/ A!DropEnd
   \/ UNCHANGED A!avars
